@@ -7,47 +7,56 @@ EXPLANATION = ("CrossHair symbolic execution (z3) of the real servers_of_happine
 ASSUMPTIONS = [
     "path-per-input: relations are dict/set shaped, CrossHair realises every relation bit; 'Confirmed over all paths' is bounded-exhaustive over the stated peers x shares bound",
     "peer ids are distinct small ints, share ids small ints (optionally with holes); the code never inspects ids",
-    "iteration order is varied through the share-key insertion order (all permutations) and the peer labelling (all permutations; set iteration follows the label order)",
+    "iteration order is varied through the share-key insertion order (permutations) and the build direction of the holder sets (peer ids collide in the set hash table, so set iteration follows insertion); a relabelling of peers is another relation and therefore already covered",
+    "after every input bit is fixed by a solver-decided fork the real function runs on the realised input with opcode tracing off (identical result, ~1000x faster); helpers bfs/augmenting_path_for/residual_network/_flow_network run traced",
     "bfs/augmenting_path_for are checked on arbitrary digraphs without a direct source->sink edge, residual_network on digraphs without 2-cycles (both hold for every flow network built by this code: layered source/peers/shares/sink)",
 ]
 
-_B16 = [[(i >> j) & 1 for j in range(4)] for i in range(16)]
-_SPLIT16 = [{"fix": b, "_label": "".join(map(str, b))} for b in _B16]
-_B4 = [[(i >> j) & 1 for j in range(2)] for i in range(4)]
-_SPLIT4 = [{"fix": b, "_label": "".join(map(str, b))} for b in _B4]
+
+
+def _split(nbits):
+    out = []
+    for i in range(2 ** nbits):
+        b = [(i >> j) & 1 for j in range(nbits)]
+        out.append({"fix": b, "_label": "".join(map(str, b))})
+    return out
+
 
 OBLIGATIONS = [
     chx("soh_max_matching", "C08_h", "h_soh",
-        bounds={"quick": {"P": 3, "S": 3}, "thorough": {"P": 4, "S": 4}},
-        cases={"quick": _SPLIT4, "thorough": _SPLIT16},
+        bounds={"quick": {"P": 3, "S": 3, "srev_only": [0, 5]}, "thorough": {"P": 4, "S": 4, "sorders": [0, 23], "srev_only": [23]}},
+        cases={"quick": _split(3), "thorough": _split(5)},
         timeout={"quick": 150, "thorough": 1500},
         desc="happinessutil.servers_of_happiness (shares_by_server, _flow_network_for, _reindex, residual_network, augmenting_path_for, bfs) "
-             "== z3-decided maximum matching for every relation within the bound, every share insertion order, every peer labelling, "
-             "share numbers with and without holes; equal to the result on the canonical order; argument not mutated",
+             "== z3-decided maximum matching for every relation within the bound; every share-key insertion order (thorough 4x4: two of the 24, the identity and the reversal), "
+             "holder sets built in both directions, share numbers with and without holes; argument not mutated",
         outside="relations beyond the stated bound (the property text also names seeded random 30x30 relations: not a solver technique)"),
+    chx("soh_all_orders_3x4", "C08_h", "h_soh", tiers=("thorough",),
+        bounds={"thorough": {"P": 3, "S": 4, "srev_only": []}}, cases={"thorough": _split(3)}, timeout={"thorough": 1500},
+        desc="same as soh_max_matching for 3 servers x 4 shares under all 24 insertion orders (holder sets ascending, share numbers without holes)"),
     chx("merge_then_soh", "C08_h", "h_merge_soh",
         bounds={"quick": {"P": 2, "S": 2, "TP": 2}, "thorough": {"P": 3, "S": 3, "TP": 2}},
-        cases={"thorough": _SPLIT4},
+        cases={"thorough": _split(3)},
         timeout={"quick": 120, "thorough": 1200},
         desc="merge_servers(preexisting, trackers) is the union relation, leaves its argument alone, and servers_of_happiness of it is the maximum matching "
              "(the value the upload decision uses)"),
     chx("calc_mappings_matching", "C08_h", "h_calc_mappings",
         bounds={"quick": {"P": 3, "S": 3}, "thorough": {"P": 3, "S": 4}},
-        cases={"quick": _SPLIT4, "thorough": _SPLIT16},
+        cases={"quick": _split(2), "thorough": _split(3)},
         timeout={"quick": 150, "thorough": 1500},
         desc="happiness_upload._calculate_mappings/_servermap_flow_graph/_compute_maximum_graph/_convert_mappings with a servermap: the mapped part of the "
-             "result is a matching inside the servermap of z3-decided maximum size; peers without shares and shares nobody holds stay None; "
-             "calculate_happiness of it is its size"),
+             "result is a matching inside the servermap of z3-decided maximum size, for every insertion order of the peer set; peers without shares and "
+             "shares nobody holds stay None; calculate_happiness of it is its size"),
     chx("calc_mappings_complete", "C08_h", "h_calc_mappings_new",
         bounds={"quick": {"NP": 4, "NS": 4}, "thorough": {"NP": 5, "NS": 6}},
         timeout={"quick": 90, "thorough": 600},
-        desc="_calculate_mappings without servermap (_flow_network): min(|peers|,|shares|) shares mapped to distinct peers"),
+        desc="_calculate_mappings without servermap (_flow_network): min(|peers|,|shares|) shares mapped to distinct peers (traced execution)"),
     chx("bfs", "C08_h", "h_bfs", bounds={"quick": {"N": 3}, "thorough": {"N": 4}}, timeout={"quick": 90, "thorough": 900},
         desc="happiness_upload.bfs on every digraph with N vertices, both adjacency orders, every source: predecessor table = shortest-path tree "
-             "(oracle: relaxation distances)"),
+             "(oracle: relaxation distances; traced execution)"),
     chx("augmenting_path", "C08_h", "h_augpath", bounds={"quick": {"N": 3}, "thorough": {"N": 4}}, timeout={"quick": 90, "thorough": 900},
-        desc="augmenting_path_for: False iff the sink is unreachable; otherwise a consecutive shortest edge path source->sink inside the graph"),
+        desc="augmenting_path_for: False iff the sink is unreachable; otherwise a consecutive shortest edge path source->sink inside the graph (traced execution)"),
     chx("residual_network", "C08_h", "h_residual", timeout={"quick": 90, "thorough": 300},
         desc="residual_network on every 3-vertex digraph without 2-cycles and every 0/1 flow on its edges: residual edges = unused forward edges + "
-             "reversed used edges, capacities +1/-1, arguments not mutated"),
+             "reversed used edges, capacities +1/-1, arguments not mutated (traced execution)"),
 ]
